@@ -20,6 +20,48 @@ CLAIMED = {
         design='6/C09'),
 }
 
+PM_NOTE = ('Modelled, not verified: Process.step / step_until_terminated / pause / play / kill / resume / fail / call_soon / '
+           'transition_to / Waiting / the workchain awaitables as the hand-written Lean model PMF, compared with real plumpy '
+           'after EVERY op on a deterministic one-callback-at-a-time asyncio loop (all placements of <= K requests over a program '
+           'corpus + random programs); asyncio itself, kiwipy and contextvars are trusted. User step functions are oracles.')
+
+
+def pm(text, technique='Lean 4 invariant proofs over the process-control model (induction over arbitrary event histories) + '
+                       'per-op differential correspondence on exhaustively enumerated small schedules', design='5, 6'):
+    return dict(text=text, note=PM_NOTE, technique=technique, design=design)
+
+
+CLAIMED.update({
+    'C01': pm('Theorems C01_graph_is_documented (the ALLOWED sets generated from the source equal the documented graph), '
+              'C01_edges_documented (for every program and every history of ticks and requests the entered-state log is a path of '
+              'that graph) and C01_terminal_states_final (from any terminal configuration no history changes state or log). '
+              'The Python monitor checks the same two clauses on every explored real run.'),
+    'C02': pm('Theorems C02_outcome_agrees / C02_nothing_reported_while_live / C02_future_resolved_iff_terminated: for every history, '
+              'terminal <=> future resolved, with exactly the outcome of the state object, closed, cleanups run once, one terminal '
+              'notification; while live nothing is reported. "step_until_terminated() returns" is not yet a theorem: it is decided '
+              'by the correspondence (task status compared after every op) and the monitor.'),
+    'C04': pm('Theorems C04_kill_total, C04_kill_when_idle, C04_kill_committed (after kill() handed back an action, every further '
+              'history leaves the process KILLED, EXCEPTED or with that kill still the pending interrupt action), '
+              'C04_end_of_step_kills, C04_pause_keeps_kill, C04_second_kill_same_action. The monitor additionally checks the '
+              'result of kill(), the kill text, future cancellation and that no step function starts after the request.'),
+    'C05': pm('Theorems C05_nothing_runs_while_paused (no activation in any history starts with paused = true), C05_pause_total, '
+              'C05_play_total, C05_play_unpauses, C05_play_cancels_pending_pause. Transparency (same steps, outputs, result as the '
+              'uninterrupted run) and status restoration are decided by the correspondence and the monitors against the '
+              'uninterrupted run of the same program; they are not yet theorems.'),
+    'C06': pm('Protocol theorems for every configuration: C06_resume_accepted, C06_resume_parked, C06_later_resume_ignored, '
+              'C06_parked_not_overwritten, C06_wake_rearms, C06_retracted_pause_keeps_wakeup, with C13_wait_resume_exact for the '
+              'delivery. The history-level statement (first accepted value is what the continuation receives; never WAITING for '
+              'ever) is decided by the correspondence and the monitor over all placements of wake-ups against pause/play/kill.'),
+    'C10': pm('Mechanism theorems for every configuration: C10_done_stores_and_waits (stored under its key, the wait does not '
+              'complete while anything is awaited), C10_last_done_completes, C10_failed_item_fails_wait, C10_failed_wait_excepts '
+              '(EXCEPTED, no further activation). The barrier over whole histories (all completion orders and placements, both '
+              'registration styles, failing and killed items) is decided by the correspondence and the monitor; not yet a theorem.'),
+    'C13': pm('Theorems C13_activation_exact, C13_continue_exact, C13_wait_resume_exact, C13_stop_exact, C13_kill_command, '
+              'C13_raise_excepts: for every configuration in which a step ends undisturbed, the next state / activation is exactly '
+              'what the returned command says, with exact positional and keyword arguments. Restoring from a checkpoint between '
+              'steps is covered by C08.'),
+})
+
 PENDING_REASON = 'check not built yet in this revision (planned: Lean model + correspondence, see DESIGN.md section 6)'
 
 
